@@ -289,6 +289,12 @@ func runC08(w *World, r *Report) {
 	phaseTables(w, r, "C08")
 	c08TypeMappingSiblings(w, r)
 	c08RepeatIsModelled(w, r, ctxs)
+	// "a key list versus its expanded pairs": every key, written alone or in a list, becomes a pair whose key is the text of its own
+	// token - a spelling rewritten on one of the two routes (leading zeros stripped for `01 : A` but not for `[01] : A`) makes the
+	// two spellings of one table compile differently
+	r.refile("C05/pair-expansion", "C08/key-list-as-pairs", func(sr *Report) { wireMatch(w, buildWire(w, sr), sr) }, func(o Obligation) bool {
+		return strings.Contains(o.Key, "key list contributes") || strings.Contains(o.Key, "each pair's key is the text")
+	})
 	// ---- 1. alias normalisation ----
 	const ruleAlias = "C08/alias-normalisation"
 	sws := normalisingSwitches(w)
